@@ -75,3 +75,14 @@ fn(R + "checkin", cls="CRecord", props=["C26"], types=T, callees=NOOP, returns="
        "self.__pool.returned == old(self.__pool.returned) + 1)"],
    may_raise={"Exception": "True"},
    modifies=["self.fairy_ref", "contents(self.finalize_callback)", "self.__pool.returned"])
+
+# a failed checkout (connect / pre-ping / checkout-event failure): the record is emptied and handed back to the pool exactly once
+from pyvc.contract import CLASSES as _CL  # noqa: E402
+_CL["CRecord"].methods["_checkin_failed"] = R + "_checkin_failed"
+fn(R + "_checkin_failed", cls="CRecord", props=["C26"], types=dict(T, err="v"), callees=NOOP, returns="none",
+   ensures=[f"{C} is None", f"implies({OC} is not None, {OC}.closed)",
+            "implies(not (old(self.fairy_ref) is None and _fairy_was_created), self.fairy_ref is None and self.__pool.returned == old(self.__pool.returned) + 1)"],
+   may_raise={"Exception": "True"},
+   # even when the check-in itself fails, no connection stays in the record
+   exc_ensures={"Exception": [f"{C} is None", f"implies({OC} is not None, {OC}.closed)"]},
+   modifies=["self.dbapi_connection", f"{C}.closed", "contents(self.finalize_callback)", "self._soft_invalidate_time", "self.fairy_ref", "self.__pool.returned"])
